@@ -618,6 +618,7 @@ func (ss *SegStore) backFillPastRecords(key string, ssType SS_DTYPE, recNum uint
 	}
 
 	packedLen += uint32(recNum)
+	ss.updateColValueSizeInAllSeenColumns(key, 1)
 
 	// we will also init dictEnc for backfilled recnums
 
